@@ -145,6 +145,8 @@ class Fn:
         self.renames = {}       # decl id -> lean field
         self.calls = set()
         self.dead = set()
+        self.aux = []
+        self.nloops = 0
         self.recursive = False
         rk = kind_of(decl['type']['qualType'].split('(')[0].strip())
         self.ret_kind = rk
@@ -723,11 +725,18 @@ class Fn:
             if any(x.get('kind') == 'ContinueStmt' for x in walk(body)):
                 raise Unsupported('%s: continue' % self.name)
             hi = self.nat(bound)
+            if any(x.get('kind') == 'CallExpr' and self._callee(x) == self.name for x in walk(body)):
+                raise Unsupported('%s: recursive call inside a loop body' % self.name)
+            self.nloops += 1
+            lnm = '%s.loop%d' % (self.name, self.nloops)
+            outer = ' '.join('(%s : Nat)' % lname(v) for v in self.loopvars)
             self.loopvars.append(iv)
-            b = self.block(self.body_of(body), ind + 2)
+            b = self.block(self.body_of(body), 2)
             self.loopvars.pop()
-            out = [pad + 'let s := CSem.loopRange %s %s (fun %s s => if s.done || s.brk then s else (' % (lo['value'], hi, lname(iv))]
-            out += b[:-1] + [b[-1] + ')) s']
+            self.aux.append(['def %s (env : Env) %s (%s : Nat) (s : %s.S) : %s.S :=' % (lnm, outer, lname(iv), self.name, self.name),
+                             '  if s.done || s.brk then s else ('] + b[:-1] + [b[-1] + ')', ''])
+            outer_args = ' '.join(lname(v) for v in self.loopvars)
+            out = [pad + 'let s := CSem.loopRange %s %s (%s env %s) s' % (lo['value'], hi, lnm, outer_args)]
             out.append(pad + 'let s := { s with brk := false }')
             return out
         if k == 'ReturnStmt':
@@ -836,6 +845,8 @@ class Fn:
         out.append('  done : Bool := false')
         out.append('  brk : Bool := false')
         out.append('')
+        for a in self.aux:
+            out += [l.replace('let s := ', 'let s : %s.S := ' % self.name) for l in a]
         ps = [f for f in self.order if self.fields[f][1] is None]
         sig = ' '.join('(%s : %s)' % (f, self.fields[f][0]) for f in ps)
         init = '{ ' + ', '.join('%s := %s' % (f, f) for f in ps) + ' }'
